@@ -376,7 +376,8 @@ class Inference(Serializable):
 
         results = parallelize(
             func=run_sample,
-            data=[self.x0] + [self._sample() for _ in range(self.n_runs - 1)],
+            # list the parameters of every start point in the order of x0, which the results are labelled with
+            data=[self.x0] + [{k: s[k] for k in self.x0} for s in [self._sample() for _ in range(self.n_runs - 1)]],
             parallelize=self.parallelize,
             pbar=self.pbar,
             desc='Optimizing',
